@@ -105,8 +105,33 @@ def judge(case, part):
                       [expected, harness.native(expected_value)], [observed, harness.native(observed_value)])
         elif expected == "accept" and not fieldmodel.same_value(field_type, expected_value, observed_value):
             part.fail(tag % ("guard=%s wrong-value" % guard), narrowed, harness.native(expected_value), harness.native(observed_value))
-        elif observed == "reject" and guard == "chars" and "character" not in str(observed_value):
-            pass  # message wording is not part of the property
+    # the same cells through Cid rows + Reader.rows() in 'yield' mode: same verdicts, and the message names the field
+    if decl["fmt"] in ("delimited", "fixed"):
+        import cutplace
+
+        try:
+            rows = harness.cid_rows(decl["preset"], [decl], allowed=decl.get("allowed"), line_delimiter="lf")
+            cid = harness.make_cid(rows)
+            text, usable = c02.data_text(decl, [c for c in case["cells"] if "\x0c" not in c])
+            events = list(cutplace.rows(cid, harness.NamedStringIO(text, "guards.txt"), on_error="yield"))
+        except Exception as error:
+            part.fail(tag % ("cid-path-raised-" + type(error).__name__), case, "rows readable", repr(error))
+            return
+        part.transitions += 1 + len(usable)
+        if len(events) != len(usable):
+            part.fail(tag % "cid-path-row-count", case, len(usable), len(events))
+            return
+        for cell, event in zip(usable, events):
+            expected, _ = fieldmodel.validate(decl, cell.ljust(decl["width"]) if decl["fmt"] == "fixed" else cell)
+            if expected is None:
+                continue
+            part.validated += 1
+            observed = "reject" if isinstance(event, errors.DataError) else "accept"
+            narrowed = {"decl": case["decl"], "cells": [cell], "path": "cid"}
+            if observed != expected:
+                part.fail(tag % ("cid-path expected=%s observed=%s" % (expected, observed)), narrowed, expected, str(event))
+            elif observed == "reject" and ("'%s'" % decl["name"]) not in str(event):
+                part.fail(tag % "cid-path error does not name the field", narrowed, decl["name"], str(event))
 
 
 def all_cases():
